@@ -277,12 +277,20 @@ def _run_lines(cmd, lines, shards):
     return out
 
 
+def _known_fns(out, who):
+    # a function name one side does not know is a defect of the machinery, never a result to be judged (or silently skipped)
+    bad = [o for o in out if o.startswith("UNKNOWN-FN")]
+    if bad:
+        raise RuntimeError("%s: %s" % (who, bad[0]))
+    return out
+
+
 def run_impl(lines, shards=NPROC):
-    return _run_lines([LH, "pure"], lines, shards)
+    return _known_fns(_run_lines([LH, "pure"], lines, shards), "harness")
 
 
 def run_model(lines, shards=NPROC):
-    return _run_lines([DRIVER], lines, shards)
+    return _known_fns(_run_lines([DRIVER], lines, shards), "model driver")
 
 
 def coq_eval_crosscheck(ctx, name, imports, exprs, expected):
